@@ -10,6 +10,8 @@ from contracts.C11_drop_invalid_rows import PandasDropInvalidRows, PolarsDropInv
 from contracts.C03_polars_container_validate import PolarsContainerValidate
 from contracts.C04_polars_column_validate import PolarsColumnValidate
 from contracts.C05_multiindex_validate import MultiIndexValidate
+from contracts.C05_polars_components import PolarsRunSchemaComponentChecks
+from contracts.C03_polars_parsers import PolarsAddMissingColumns, PolarsSetDefault
 
 CONTRACTS = [ContainerValidate, SeriesSchemaValidate, ArrayValidate, IndexValidate, ColumnValidateRestoresSchema, RunSchemaComponentChecks,
-             ConfigContext, PolarsSubsample, PandasDropInvalidRows, PolarsDropInvalidRows, PolarsContainerValidate, PolarsColumnValidate, MultiIndexValidate] + list(POLARS_API)
+             ConfigContext, PolarsSubsample, PandasDropInvalidRows, PolarsDropInvalidRows, PolarsContainerValidate, PolarsColumnValidate, MultiIndexValidate, PolarsRunSchemaComponentChecks, PolarsAddMissingColumns, PolarsSetDefault] + list(POLARS_API)
